@@ -33,6 +33,7 @@ type Case struct {
 	Via       int         `json:"via"`              // 0 Logger.Log, 1 level method, 2 LogAttrs, 3 Handler.Handle with a chosen time, 4 Logf / level-f methods (record attributes dropped)
 	Decoys    bool        `json:"decoys,omitempty"` // derive sibling loggers from every parent of the chain
 	TimeNs    int64       `json:"time_ns,omitempty"`
+	TimeSec   int64       `json:"time_sec,omitempty"` // with Via 3: seconds since the epoch (reaches years outside 1678..2262)
 	ZoneSec   int         `json:"zone_sec,omitempty"`
 }
 
@@ -50,12 +51,20 @@ var ctx = context.Background()
 
 // mark returns args unchanged and records the source line of its caller's call expression.
 func mark(line *int, args []any) []any {
-	_, _, *line, _ = runtime.Caller(1)
+	_, callFile, *line, _ = runtime.Caller(1)
 	return args
 }
 
+// callFile is the file of the last marked call site (it differs from this file under a
+// //line directive, see odd.go).
+var callFile string
+
+func lastTwo(f string) string {
+	return filepath.Base(filepath.Dir(f)) + "/" + filepath.Base(f)
+}
+
 func markA(line *int, attrs []slog.Attr) []slog.Attr {
-	_, _, *line, _ = runtime.Caller(1)
+	_, callFile, *line, _ = runtime.Caller(1)
 	return attrs
 }
 
@@ -87,6 +96,26 @@ func emit(l *logger.Logger, cs Case, args []any) (line int) {
 			attrs = append(attrs, n.Attr())
 		}
 		l.LogAttrs(ctx, levels[cs.Rec.Level], msg, markA(&line, attrs)...)
+	case 5: // Panic: logs at ERROR with attributes, then panics with the message
+		func() {
+			defer func() {
+				if r := recover(); r != msg {
+					panic(fmt.Sprintf("Logger.Panic panicked with %v, want the message", r))
+				}
+			}()
+			l.Panic(msg, mark(&line, args)...)
+		}()
+	case 6: // Panicf
+		func() {
+			defer func() {
+				if r := recover(); r != msg {
+					panic(fmt.Sprintf("Logger.Panicf panicked with %v, want the message", r))
+				}
+			}()
+			l.Panicf("%s", mark(&line, []any{msg})...)
+		}()
+	case 7: // a call site whose file name needs quoting / escaping (//line directive in odd.go)
+		line = emitOdd(l, cs, args)
 	case 4: // formatted message, no attributes of its own
 		switch cs.Rec.Level {
 		case 0:
@@ -121,8 +150,11 @@ func runCase(cs Case, st *stats) (key, expected, observed string) {
 }
 
 func runOnce(cs Case, st *stats) (key, expected, observed string) {
-	if cs.Via == 4 {
+	if cs.Via == 4 || cs.Via == 6 {
 		cs.Rec.Attrs = nil // the f-methods take no attributes
+	}
+	if cs.Via == 5 || cs.Via == 6 {
+		cs.Rec.Level = 3 // Panic / Panicf log at ERROR
 	}
 	var out capture
 	var h logger.Handler = logger.NewJsonHandler(&out, logger.NewOptions(logger.LevelDebug, false, cs.AddSource))
@@ -143,7 +175,7 @@ func runOnce(cs Case, st *stats) (key, expected, observed string) {
 					h = h.WithAttrs(attrs)
 				}
 			}
-			chosen = time.Unix(0, cs.TimeNs).In(time.FixedZone("", cs.ZoneSec))
+			chosen = time.Unix(cs.TimeSec, cs.TimeNs).In(time.FixedZone("", cs.ZoneSec))
 			r := slog.NewRecord(chosen, levels[cs.Rec.Level], string(cs.Rec.Msg), 0)
 			for _, n := range cs.Rec.Attrs {
 				r.AddAttrs(n.Attr())
@@ -182,7 +214,7 @@ func runOnce(cs Case, st *stats) (key, expected, observed string) {
 	if cs.AddSource && cs.Via != 3 {
 		st.withSource++
 		want.Obj = append(want.Obj, logparse.JMember{Key: "source", V: logparse.JV{Kind: "obj", Obj: []logparse.JMember{
-			{Key: "file", V: logparse.JV{Kind: "str", Str: thisFile}},
+			{Key: "file", V: logparse.JV{Kind: "str", Str: attrgen.FFFD(lastTwo(callFile))}},
 			{Key: "line", V: logparse.JV{Kind: "num", Num: strconv.Itoa(line)}},
 		}}})
 	} else if cs.AddSource {
@@ -199,6 +231,11 @@ func runOnce(cs Case, st *stats) (key, expected, observed string) {
 	}
 	ts := got.Obj[0].V.Str
 	pt, err := time.Parse(time.RFC3339Nano, ts)
+	if y := chosen.Year(); cs.Via == 3 && (y < 0 || y > 9999) {
+		// outside the years RFC 3339 can spell: the line must still be written, with the time the
+		// standard formatter gives
+		err, pt = nil, chosen
+	}
 	if err != nil {
 		return "time", "time in RFC3339Nano", fmt.Sprintf("%q: %v", ts, err)
 	}
@@ -287,6 +324,10 @@ func (mon) Plan(prop, tier string, seed int64) []drv.Shard {
 		out = append(out, drv.Shard{Name: fmt.Sprintf("shape-%d", p), Args: a})
 		a, _ = json.Marshal(shardArgs{Kind: "rand", Part: p, Parts: parts, Count: nrand / parts})
 		out = append(out, drv.Shard{Name: fmt.Sprintf("rand-%d", p), Args: a})
+		if p == 0 {
+			a, _ = json.Marshal(shardArgs{Kind: "times"})
+			out = append(out, drv.Shard{Name: "times", Args: a})
+		}
 		if p < 4 {
 			a, _ = json.Marshal(shardArgs{Kind: "sibling", Part: p, Parts: 4})
 			out = append(out, drv.Shard{Name: fmt.Sprintf("sibling-%d", p), Args: a})
@@ -303,7 +344,7 @@ func strCase(s string, i int) Case {
 	if len(b) > 0 {
 		rec.Chain = append(rec.Chain, attrgen.ChainOp{IsGrp: true, Group: b})
 	}
-	return Case{Rec: rec, Via: []int{0, 1, 2, 4, 0, 1}[i%6], Decoys: i%2 == 0, AddSource: i%7 == 0}
+	return Case{Rec: rec, Via: []int{0, 1, 2, 4, 5, 6, 7, 0}[i%8], Decoys: i%2 == 0, AddSource: i%7 == 0}
 }
 
 func (mn mon) Run(sh drv.Shard, c *drv.Ctx) {
@@ -339,7 +380,7 @@ func (mn mon) Run(sh drv.Shard, c *drv.Ctx) {
 			if idx%a.Parts != a.Part {
 				return true
 			}
-			cs := Case{Rec: r, Decoys: idx%3 == 0, Via: idx / a.Parts % 5, AddSource: idx%5 == 0, TimeNs: int64(idx) * 1000003, ZoneSec: (idx%27 - 13) * 3600}
+			cs := Case{Rec: r, Decoys: idx%3 == 0, Via: idx / a.Parts % 8, AddSource: idx%5 == 0, TimeNs: int64(idx) * 1000003, ZoneSec: (idx%27 - 13) * 3600}
 			if cs.Via == 2 {
 				cs.Via = 0 // LogAttrs cannot carry pair arguments; shapes use attrs only, keep Log
 			}
@@ -348,6 +389,22 @@ func (mn mon) Run(sh drv.Shard, c *drv.Ctx) {
 			}
 			return exec(cs, attrgen.ShapeKey(r))
 		})
+	case "times":
+		// record times at the edges of what a formatter may assume (Handler.Handle with a chosen time)
+		secs := []int64{253402300799, 253402300800, 253402297200, 569057875200, -62167219200, -62167219201, -62198755200, -1, 0, 1, 4102444800}
+		idx := 0
+		for _, sec := range secs {
+			for _, zone := range []int{0, 3600, -3600, 50400, -43200} {
+				for _, ns := range []int64{0, 1, 999999999, 120000000} {
+					idx++
+					rec := attrgen.Rec{Msg: []byte("m"), Level: idx % 5, Attrs: []attrgen.Node{{Key: []byte("k"), Val: &attrgen.Val{T: "int", I: int64(idx)}}}}
+					cs := Case{Rec: rec, Via: 3, TimeSec: sec, TimeNs: ns, ZoneSec: zone}
+					if !exec(cs, fmt.Sprintf("time %d/%d/%d", sec, zone, ns)) {
+						return
+					}
+				}
+			}
+		}
 	case "sibling":
 		// chains whose parents carry pre-rendered bytes of every length 0..200 (every spare
 		// capacity the append growth policy yields), with decoy siblings derived from each parent
@@ -384,7 +441,7 @@ func (mn mon) Run(sh drv.Shard, c *drv.Ctx) {
 		r := rand.New(rand.NewSource(sh.Seed*1000003 + int64(a.Part)))
 		for i := 0; i < a.Count; i++ {
 			rec := attrgen.RandRec(r)
-			cs := Case{Rec: rec, Via: r.Intn(5), Decoys: r.Intn(2) == 0, AddSource: r.Intn(3) == 0, TimeNs: r.Int63n(7e18), ZoneSec: (r.Intn(27) - 13) * 1800}
+			cs := Case{Rec: rec, Via: r.Intn(8), Decoys: r.Intn(2) == 0, AddSource: r.Intn(3) == 0, TimeNs: r.Int63n(7e18), ZoneSec: (r.Intn(27) - 13) * 1800}
 			if cs.Via == 2 {
 				for i := range cs.Rec.Attrs {
 					cs.Rec.Attrs[i].Pair = false
